@@ -145,6 +145,17 @@ pub fn enum_corpus(tier: Tier) -> CorpusSpec {
     }
 }
 
+pub fn attr_corpus(tier: Tier) -> CorpusSpec {
+    let thorough = tier == Tier::Thorough;
+    CorpusSpec {
+        name: format!("attr_{}", if thorough { "t" } else { "q" }),
+        programs_expr: format!("vmodel::corpus::attr_corpus({thorough})"),
+        programs: vmodel::corpus::attr_corpus(thorough),
+        shards: 8,
+        main_call: "vrt::explore::main(entries);".into(),
+    }
+}
+
 pub fn all_specs(tier: Tier) -> Vec<CorpusSpec> {
-    vec![struct_corpus(tier), enum_corpus(tier)]
+    vec![struct_corpus(tier), enum_corpus(tier), attr_corpus(tier)]
 }
